@@ -204,6 +204,37 @@ def _item_end(t, m, kwpos):
     return s + 1
 
 
+def arm_end(t, m, j):
+    """end (exclusive) of a match-arm body starting at j: up to the ',' at
+    depth 0 (exclusive), or the end of a block body (with a trailing method
+    chain)"""
+    i = j
+    n = len(t)
+    while i < n:
+        if not m[i]:
+            i += 1
+            continue
+        c = t[i]
+        if c == ',':
+            return i
+        if c in ')]}':
+            return i
+        if c in '([':
+            i = match_close(t, m, i) + 1
+            continue
+        if c == '{':
+            i = match_close(t, m, i) + 1
+            k = i
+            while k < n and (t[k].isspace() or not m[k]):
+                k += 1
+            if k < n and (t[k] in '.?' or t.startswith('else', k)):
+                i = k
+                continue
+            return i
+        i += 1
+    return n
+
+
 def norm_ws(s):
     return re.sub(r'\s+', ' ', s).strip()
 
@@ -226,6 +257,19 @@ def find_item(t, m, selector, dm=None):
         ordinal = int(mo.group(1))
         selector = selector[:mo.start()]
     kind = selector.split(':', 1)[0]
+    if kind == 'arm':
+        # arm:<inner selector>@@<regex ending in =>>  -> the body expression of that match arm
+        inner, rx = selector[len('arm:'):].split('@@', 1)
+        s0, e0 = find_item(t, m, inner, dm)
+        hits = [mm for mm in re.compile(rx).finditer(t, s0, e0) if m[mm.start()]]
+        if ordinal is not None and ordinal <= len(hits):
+            hits = [hits[ordinal - 1]]
+        if len(hits) != 1:
+            raise LookupError('%s: %d arms match' % (selector, len(hits)))
+        i = hits[0].end()
+        while t[i].isspace():
+            i += 1
+        return i, arm_end(t, m, i)
     if kind == 'method':
         hdr, nm = selector[len('method:'):].rsplit(':', 1)
         parts = ['method', hdr, nm]
